@@ -1,5 +1,6 @@
 import Toq.Core.ND
 import Toq.Core.EMat
+import Toq.Core.Rank
 import Toq.Model.Perms
 /-!
 # Exact models for C14 (Schmidt rank, product test, purity, closed forms) — no Mathlib
@@ -14,9 +15,10 @@ big-endian).  The *mirror* definitions follow the Python line by line:
 * `_operator_schmidt_rank`: `rho.reshape(N², 1)`, `swap(·, [2,3], [dA,dB,dA,dB])`, then the vector branch with
   `dim = [dA², dB²]` — `operatorSchmidtVec`, `operatorAmp`.
 
-The rank itself is computed exactly over `ℚ[i]` by Gaussian elimination (`rankQ`), and certified by the
-checker `rankCert` (a rank factorisation and a two-sided inverse on the range, both verified by exact
-matrix products; sound with respect to Mathlib's `Matrix.rank`, see `Toq.C14.rankCert_sound`).
+The rank itself is computed exactly over `ℚ[i]` by Gaussian elimination (`rankQ` = the shared routine
+`Toq.Rank.rankFn`, proved equal to Mathlib's `Matrix.rank` of the denoted complex matrix:
+`Toq.C14.rankQ_eq_rank`), and independently certified by the checker `rankCert` (a rank factorisation and a
+two-sided inverse on the range, both verified by exact matrix products; `Toq.C14.rankCert_sound`).
 -/
 
 namespace Toq.Entangle
@@ -105,30 +107,10 @@ def isProductOp [Mul α] [DecidableEq α] (dA dB : Nat) (ρ : Nat → Nat → α
 
 /-! ## exact rank over `ℚ[i]` -/
 
-/-- inverse in `ℚ[i]` (`0 ↦ 0`) -/
-def qiInv (a : QI) : QI :=
-  let n := a.re * a.re + a.im * a.im
-  ⟨a.re / n, -a.im / n⟩
-
-/-- one elimination step at column `c` with `r` pivots found so far -/
-def elimStep (rows : Array (Array QI)) (r c : Nat) : Array (Array QI) × Nat :=
-  match (List.range rows.size).find? (fun i => r ≤ i && (rows[i]!)[c]! != 0) with
-  | none => (rows, r)
-  | some p =>
-    let rp := rows[p]!
-    let rows := (rows.set! p rows[r]!).set! r rp
-    let inv := qiInv rp[c]!
-    let rows := rows.mapIdx fun i row =>
-      if i ≤ r then row
-      else
-        let f := row[c]! * inv
-        if f == 0 then row else row.mapIdx fun k x => x - f * rp[k]!
-    (rows, r + 1)
-
-/-- rank of an exact `n × m` matrix by Gaussian elimination over `ℚ[i]` -/
-def rankQ (n m : Nat) (A : Nat → Nat → QI) : Nat :=
-  let rows : Array (Array QI) := Array.ofFn (n := n) fun i => Array.ofFn (n := m) fun j => A i.val j.val
-  ((List.range m).foldl (fun (st : Array (Array QI) × Nat) c => elimStep st.1 st.2 c) (rows, 0)).2
+/-- rank of an exact `n × m` matrix by Gaussian elimination over `ℚ[i]`: the shared, proved routine
+    `Toq.Rank.rankFn` (`Toq/Core/Rank.lean`); equal to Mathlib's `Matrix.rank` of the denoted complex matrix
+    (`Toq.C14.rankQ_eq_rank`) -/
+def rankQ (n m : Nat) (A : Nat → Nat → QI) : Nat := Toq.Rank.rankFn n m A
 
 /-- `schmidt_rank` on a vector, mirror of the (fixed) code -/
 def schmidtRankVec (dA dB : Nat) (ψ : Nat → QI) : Nat := rankQ dA dB (reshapeDim dA dB ψ)
